@@ -410,3 +410,32 @@ package wallet
 //@   ensures [no-change] result2 == nil && cval(amount) > 0 && cval(callres("selectUTXOs", 2)) <= cval(amount) ==> txn.SiacoinOutputs == old(txn.SiacoinOutputs)
 //@   ensures [reserved] result2 == nil && cval(amount) > 0 ==> forall k int :: { callres("selectUTXOs", 1)[k] } 0 <= k && k < len(callres("selectUTXOs", 1)) ==> (callres("selectUTXOs", 1)[k].ID in sw.locked) && sw.locked[callres("selectUTXOs", 1)[k].ID] == time.Now().Add(sw.cfg.ReservationDuration)
 //@   ensures [basis] result2 == nil && cval(amount) > 0 ==> result0 == callres("selectUTXOs", 0)
+//
+// Redistribute draws its inputs from selectRedistributeUTXOs: unreserved, mature, not the parent
+// of any pooled input (v1 or v2), pairwise distinct.
+//@ func (*SingleAddressWallet).selectRedistributeUTXOs props C07
+//@   nopanic
+//@   assigns nothing
+//@   requires sw != nil && sw.cm != nil
+//@   requires [distinct-in] forall i int, j int :: { elements[i], elements[j] } 0 <= i && i < j && j < len(elements) ==> elements[i].ID != elements[j].ID
+//@   loop "range sw.cm.PoolTransactions()"
+//@     invariant [spent] forall q int, j int :: { callres("PoolTransactions")[q].SiacoinInputs[j] } 0 <= q && q <= rangeindex && 0 <= j && j < len(callres("PoolTransactions")[q].SiacoinInputs) ==> inPool[callres("PoolTransactions")[q].SiacoinInputs[j].ParentID]
+//@   loop "range txn.SiacoinInputs"
+//@     invariant [mono] forall id types.SiacoinOutputID :: { inPool[id] } loopentry(inPool[id]) ==> inPool[id]
+//@     invariant [spent] forall j int :: { txn.SiacoinInputs[j] } 0 <= j && j <= rangeindex ==> inPool[txn.SiacoinInputs[j].ParentID]
+//@   loop "range sw.cm.V2PoolTransactions()"
+//@     invariant [mono] forall id types.SiacoinOutputID :: { inPool[id] } loopentry(inPool[id]) ==> inPool[id]
+//@     invariant [spent] forall q int, j int :: { callres("V2PoolTransactions")[q].SiacoinInputs[j] } 0 <= q && q <= rangeindex && 0 <= j && j < len(callres("V2PoolTransactions")[q].SiacoinInputs) ==> inPool[callres("V2PoolTransactions")[q].SiacoinInputs[j].Parent.ID]
+//@   loop "range txn.SiacoinInputs" #2
+//@     invariant [mono] forall id types.SiacoinOutputID :: { inPool[id] } loopentry(inPool[id]) ==> inPool[id]
+//@     invariant [spent] forall j int :: { txn.SiacoinInputs[j] } 0 <= j && j <= rangeindex ==> inPool[txn.SiacoinInputs[j].Parent.ID]
+//@   loop "range elements"
+//@     invariant [frame] frameRows(utxos)
+//@     invariant [cand] forall k int :: { utxos[k] } 0 <= k && k < len(utxos) ==> !lockedNow(sw, utxos[k].ID) && !inPool[utxos[k].ID] && utxos[k].MaturityHeight <= bh
+//@     invariant [distinct] forall a int, b int :: { utxos[a], utxos[b] } 0 <= a && a < b && b < len(utxos) ==> utxos[a].ID != utxos[b].ID
+//@     invariant [ahead] forall k int, m int :: { utxos[k], elements[m] } 0 <= k && k < len(utxos) && rangeindex < m && m < len(elements) ==> utxos[k].ID != elements[m].ID
+//@   ensures [unreserved] forall k int :: { result0[k] } 0 <= k && k < len(result0) ==> !lockedNow(sw, result0[k].ID) && result0[k].MaturityHeight <= bh
+//@   ensures [unspent-v1] forall k int, q int, j int :: { result0[k], callres("PoolTransactions")[q].SiacoinInputs[j] } 0 <= k && k < len(result0) && 0 <= q && q < len(callres("PoolTransactions")) && 0 <= j && j < len(callres("PoolTransactions")[q].SiacoinInputs) ==> callres("PoolTransactions")[q].SiacoinInputs[j].ParentID != result0[k].ID
+//@   ensures [unspent-v2] forall k int, q int, j int :: { result0[k], callres("V2PoolTransactions")[q].SiacoinInputs[j] } 0 <= k && k < len(result0) && 0 <= q && q < len(callres("V2PoolTransactions")) && 0 <= j && j < len(callres("V2PoolTransactions")[q].SiacoinInputs) ==> callres("V2PoolTransactions")[q].SiacoinInputs[j].Parent.ID != result0[k].ID
+//@   ensures [distinct] forall a int, b int :: { result0[a], result0[b] } 0 <= a && a < b && b < len(result0) ==> result0[a].ID != result0[b].ID
+//@   ensures [ok] result2 == nil
